@@ -58,6 +58,7 @@ NoBudget == [steps |-> 0, restarts |-> 0, dups |-> 0, drops |-> 0, ticks |-> 0, 
 WInit == [nd |-> [A |-> NodeInit, B |-> NodeInit], net |-> [AB |-> <<>>, BA |-> <<>>], tip |-> BaseTip, txs |-> <<>>,
           fee |-> [ex |-> FALSE, st |-> "none", paid |-> FALSE, issued |-> 0, payee |-> ""], cinv |-> <<>>, now |-> 0,
           q |-> <<>>, occ |-> <<>>, f |-> None, c |-> None, crashes |-> FALSE, faults |-> FALSE, seen |-> [A |-> {}, B |-> {}],
+          lossyTo |-> [A |-> FALSE, B |-> FALSE], idr |-> [A |-> FALSE, B |-> FALSE],
           lostopen |-> [A |-> FALSE, B |-> FALSE], lostspend |-> [A |-> FALSE, B |-> FALSE], opened |-> {}, closed |-> "", b |-> NoBudget, v |-> {}]
 
 (* ------------------------------------------------------- run context -- *)
@@ -115,13 +116,17 @@ MsgOf(d) ==
     [] d.nxt = "coop_close" -> [k |-> d.nxt, c |-> [key |-> "taker"]]
     [] OTHER -> [k |-> d.nxt, c |-> <<>>]
 ClaimStatus(ww, i) == IF i = 0 \/ i > Len(ww.cinv) THEN "none" ELSE ww.cinv[i].st
+\* ground truth of the taker's claim payment(s)
+ClaimAgg(ww) ==
+  LET S == {ww.cinv[i].st : i \in 1..Len(ww.cinv)} IN
+  IF "succeeded" \in S THEN "succeeded" ELSE IF "inflight" \in S THEN "inflight" ELSE IF "failed" \in S THEN "failed" ELSE "none"
 \* Messenger.SendMessage
 SendMsg(x, m) ==
   LET g == Gate(x, "msg.send") IN
   IF g.crashed THEN g ELSE
   LET dir == x.me \o Peer(x)
       dk == g.w.nd[x.me].disk
-      chk == IF m.k = "coop_close" THEN ChkCoopSend(ClaimStatus(g.w, dk.inv), dk.role, dk.prev, dk.cur, dk.pre, g.w.crashes, g.w.faults) ELSE {}
+      chk == IF m.k = "coop_close" THEN ChkCoopSend(ClaimAgg(g.w), dk.role, dk.prev, dk.cur, dk.pre, g.w.crashes, g.w.faults) ELSE {}
       g0 == Viol([g EXCEPT !.sent = @ \cup {m.k}], chk)
       g1 == IF g.go = "" THEN [g0 EXCEPT !.w.net[dir] = Append(@, m)] ELSE g0
       g2 == IF g.go = "" /\ m.k = "opening_tx_broadcasted" THEN [g1 EXCEPT !.w.nd[x.me].lastotb = m] ELSE g1
@@ -364,7 +369,8 @@ Lock(x, data) == [x EXCEPT !.w.nd[x.me].reg = TRUE, !.w.nd[x.me].mem = data, !.d
 (* ------------------------------------------------ service handlers (service.go) -- *)
 OnRequest(x, m) ==
   IF Nd(x).reg \/ Nd(x).disk.role # "" THEN     \* a known swap id is never reused: refused with cancel (also the duplicate of the own request)
-     [SendMsg(x, [k |-> "cancel", c |-> [why |-> "inuse"]]) EXCEPT !.res = "id_in_use"]
+     (IF RefuseKnownIdWithCancel THEN [SendMsg(x, [k |-> "cancel", c |-> [why |-> "inuse"]]) EXCEPT !.res = "id_in_use"]
+      ELSE [x EXCEPT !.res = "id_in_use"])       \* (DuoCfgs: how the tree under test treats the duplicate of a known request, probed by the engine)
   ELSE
   LET role == RoleOfReq(m.k)
       l == Lock(x, [NoData EXCEPT !.role = role])
@@ -420,15 +426,15 @@ Deliver(ww, dir, pop) ==
   LET m == Head(ww.net[dir])
       to == IF dir = "AB" THEN "B" ELSE "A"
       w0 == IF pop THEN [ww EXCEPT !.net[dir] = Tail(@)] ELSE ww
-  IN IF ~w0.nd[to].up THEN w0 ELSE
+  IN IF ~w0.nd[to].up THEN [w0 EXCEPT !.lossyTo[to] = TRUE] ELSE       \* delivered to a stopped node: lost
   LET dup == m \in w0.seen[to]
-      w1 == [w0 EXCEPT !.seen[to] = @ \cup {m}]
+      idc == m.k = "cancel" /\ m.c.why = "inuse"
+      w1 == [w0 EXCEPT !.seen[to] = @ \cup {m}, !.idr[to] = @ \/ (idc /\ w0.nd[to].reg)]
       pre == IF ~w1.nd[to].reg THEN "" ELSE IF w1.nd[to].mem.cur = "" THEN "-" ELSE w1.nd[to].mem.cur
       role == IF m.k \in ReqKinds THEN RoleOfReq(m.k) ELSE w1.nd[to].mem.role
-      inv == IF w1.nd[OtherNode(to)].disk.role # "" THEN w1.nd[OtherNode(to)].disk.inv ELSE 0
-      keychk == IF m.k = "coop_close" THEN ChkCoopRecv(ClaimStatus(w1, inv), w1.crashes, w1.faults) ELSE {}
+      keychk == IF m.k = "coop_close" THEN ChkCoopRecv(ClaimAgg(w1), w1.crashes, w1.faults) ELSE {}
       r == OnPeerMessage(Ctx(w1, to), m)
-      chk == IF r.crashed THEN {} ELSE ChkRecv(m.k, dup, r.res, pre, r.first, r.sent, role)
+      chk == IF r.crashed THEN {} ELSE ChkRecv(m.k, IF idc THEN "cancel-id-in-use" ELSE m.k, dup, r.res, pre, r.first, r.sent, role, w1.lossyTo[to], w1.crashes \/ w1.faults)
   IN [r.w EXCEPT !.v = @ \cup keychk \cup chk]
 
 RECURSIVE Flush(_, _)
@@ -484,7 +490,7 @@ EndChecks(ww) ==
       taker == OtherNode(maker)
   IN ChkEndAtomic(TxsPub(ww), RecOf(ww, maker), RecOf(ww, taker), ww.lostopen[maker], ww.lostspend[taker], ww.crashes, ww.faults)
      \cup ChkEndPaid(\E i \in 1..Len(ww.cinv) : ww.cinv[i].paid, RecOf(ww, taker), ww.lostspend[taker], ww.crashes, ww.faults)
-     \cup ChkEndNode(RecOf(ww, "A"), ActOf(ww, "A"), ww.nd.A.up, ww.lostspend.A) \cup ChkEndNode(RecOf(ww, "B"), ActOf(ww, "B"), ww.nd.B.up, ww.lostspend.B)
+     \cup ChkEndNode(RecOf(ww, "A"), ActOf(ww, "A"), ww.nd.A.up, ww.lostspend.A, ww.idr.A) \cup ChkEndNode(RecOf(ww, "B"), ActOf(ww, "B"), ww.nd.B.up, ww.lostspend.B, ww.idr.B)
 
 \* a finished swap leaves the registry; its in-memory copy is garbage
 Normalize(ww) == [ww EXCEPT !.nd = [n \in {"A", "B"} |-> IF ww.nd[n].reg THEN ww.nd[n] ELSE [ww.nd[n] EXCEPT !.mem = NoData]],
@@ -497,8 +503,8 @@ StepHit(ww, st) ==
                                   THEN LocalInit(Ctx(w0, st.n), st.typ).w ELSE w0
               [] st.a = "deliver" -> Deliver(w0, st.d, TRUE)
               [] st.a = "dup" -> Deliver(w0, st.d, FALSE)
-              [] st.a = "drop" -> IF w0.net[st.d] = <<>> THEN w0 ELSE [w0 EXCEPT !.net[st.d] = Tail(@)]
-              [] st.a = "dropall" -> [w0 EXCEPT !.net = [AB |-> <<>>, BA |-> <<>>]]
+              [] st.a = "drop" -> IF w0.net[st.d] = <<>> THEN w0 ELSE [w0 EXCEPT !.net[st.d] = Tail(@), !.lossyTo[IF st.d = "AB" THEN "B" ELSE "A"] = TRUE]
+              [] st.a = "dropall" -> [w0 EXCEPT !.net = [AB |-> <<>>, BA |-> <<>>], !.lossyTo.B = @ \/ w0.net.AB # <<>>, !.lossyTo.A = @ \/ w0.net.BA # <<>>]
               [] st.a = "flush" -> Flush(w0, 12)
               [] st.a = "block" -> Mine(w0, st.nb, st.incl)
               [] st.a = "tick" -> FireTimers(FireTimers([w0 EXCEPT !.now = @ + 10], "A"), "B")
@@ -526,9 +532,7 @@ NodeSnap(ww, n) ==
    wconf |-> IF nd.wconf = None THEN 0 ELSE 1, wcsv |-> IF nd.wcsv = None THEN 0 ELSE 1, notif |-> JoinSorted({nt.k : nt \in nd.notif}),
    ndisk |-> IF d.role = "" THEN 0 ELSE 1,
    disk |-> [role |-> d.role, prev |-> d.prev, cur |-> d.cur, fl |-> FlStr(d), start |-> d.start, nxt |-> d.nxt]]
-ClaimTruth(ww) ==
-  LET S == {ww.cinv[i].st : i \in 1..Len(ww.cinv)} IN
-  IF "succeeded" \in S THEN "succeeded" ELSE IF "inflight" \in S THEN "inflight" ELSE IF "failed" \in S THEN "failed" ELSE "none"
+ClaimTruth(ww) == ClaimAgg(ww)
 Snapshot(ww) ==
   [A |-> NodeSnap(ww, "A"), B |-> NodeSnap(ww, "B"), ab |-> [i \in 1..Len(ww.net.AB) |-> ww.net.AB[i].k], ba |-> [i \in 1..Len(ww.net.BA) |-> ww.net.BA[i].k],
    tip |-> ww.tip, txs |-> TxsPub(ww), fee |-> ww.fee.st, claim |-> ClaimTruth(ww), cpaid |-> \E i \in 1..Len(ww.cinv) : ww.cinv[i].paid, now |-> ww.now]
@@ -574,9 +578,9 @@ DoStep ==
   /\ w.closed = "" /\ w.b.steps < cf.maxsteps
   /\ \E base \in BaseSteps(w), pl \in Plans(w) :
        /\ IF pl.f = None /\ pl.c = None THEN TRUE ELSE base.a \in {"init", "deliver", "dup", "block", "tick", "restart", "htlc"}
-       /\ LET st == [base EXCEPT !.f = pl.f, !.c = pl.c]
-              e == StepHit(w, st)
-          IN /\ PlanHit(pl, e)
+       /\ \E st \in {[base EXCEPT !.f = pl.f, !.c = pl.c]} :       \* (quantifiers over singleton sets bind values: evaluated once)
+          \E e \in {StepHit(w, st)} :
+             /\ PlanHit(pl, e)
              /\ w' = [e.w EXCEPT !.b = Bump(@, st)]
              /\ sched' = Append(sched, st)
   /\ UNCHANGED cf
